@@ -770,6 +770,16 @@ class Analysis:
                 eqs = [le(sp[1] + l1, cap), le(cap, sp[1] + l1)]      # (B1) wrapped: first part ends exactly at the end
                 st.nullcase[p2] = (eqs, [lt(sp[1] + l1, cap), l2, l2.scale(-1)])   # (B2) not wrapped: NUL inside, len2 = 0
             ret = self.new_sym(st, "get_parts", nonneg=True)
+        elif kind == "lexer":                     # token recogniser: returns the number of bytes it consumed (>= 0) and,
+            ret = self.new_sym(st, name, nonneg=True)   # where the contract says so, stores the same number in token->len
+            cur = st.env.get("$consumed", Lin.const(0))
+            st.env["$consumed"] = cur + ret
+            ti = ct.get("token")
+            if ti is not None and ti < len(args) and ct.get("len_is_ret", True):
+                tp = args[ti].strip_all_casts().get("path")
+                if tp:
+                    tp = tp[1:] + ".len" if tp.startswith("&") else tp + "->len"
+                    st.env[tp] = ret
         elif kind == "alloc":                     # returns NULL or a fresh object of arg[size] elements
             sz = aval(ct.get("size", 0))
             key = "alloc@%d" % n.id
